@@ -1,6 +1,10 @@
 package sqlparser
 
-import querypb "github.com/cossacklabs/acra/sqlparser/dependency/querypb"
+import (
+	"strconv"
+
+	querypb "github.com/cossacklabs/acra/sqlparser/dependency/querypb"
+)
 
 // RedactSQLQuery returns a sql string with the params stripped out for display
 func RedactSQLQuery(sql string) (string, error) {
@@ -12,7 +16,32 @@ func RedactSQLQuery(sql string) (string, error) {
 		return "", err
 	}
 
-	Normalize(stmt, bv, ValueMask)
+	redactValues(stmt, bv)
 
 	return comments.Leading + String(stmt) + comments.Trailing, nil
+}
+
+// redactValues replaces every literal value of the statement with a placeholder. Normalize converts the values
+// that can become bind variables; the literals it leaves in place (hexadecimal and bit literals, numbers that are
+// not valid 64-bit integers or floats, the separator of GROUP_CONCAT) are masked here, since the result is meant
+// for display and logs only.
+func redactValues(stmt Statement, bv map[string]*querypb.BindVariable) {
+	Normalize(stmt, bv, ValueMask)
+	counter := len(bv)
+	_ = Walk(func(node SQLNode) (bool, error) {
+		switch node := node.(type) {
+		case *SQLVal:
+			switch node.Type {
+			case StrVal, IntVal, FloatVal, HexNum, HexVal, BitVal, PgEscapeString:
+				counter++
+				node.Type = ValArg
+				node.Val = []byte(":" + ValueMask + strconv.Itoa(counter))
+			}
+		case *GroupConcatExpr:
+			if node.Separator != "" {
+				node.Separator = " separator '" + ValueMask + "'"
+			}
+		}
+		return true, nil
+	}, stmt)
 }
